@@ -4,6 +4,7 @@ import os
 from vf import driver
 from contracts.c import include as cinc
 from contracts.py import include as pyinc
+from contracts.py import structflags
 
 PID = 'C34'
 BATTERY = open(os.path.join(driver.VERIF, 'bounded', 'include_battery.py')).read()
@@ -19,7 +20,7 @@ def more(rep, tu):
 
 def main(tier, seed):
     return driver.run_property(
-        PID, tier, seed, c_part=(cinc.R, cinc.C34_FUNCS), py_items=pyinc.items(), concretise=concretise, quick_budget=120, more=more,
+        PID, tier, seed, c_part=(cinc.R, cinc.C34_FUNCS), py_items=pyinc.items() + structflags.items(), concretise=concretise, quick_budget=120, more=more,
         layout_types=('PyObject', 'PyVarObject', 'PyTupleObject', 'FFIObject', 'builder_c_t', 'struct _cffi_struct_union_s',
                       'struct _cffi_type_context_s', 'LibObject'),
         trusted=["Python side: Parser._declare and Parser._add_constants are decided by an exhaustive case split over how the "
@@ -45,7 +46,10 @@ def main(tier, seed):
                  "contract (loop-body contract: every local is arbitrary at the loop head); the recursive call and "
                  "ffi_fetch_int_constant are recorded; PyDict_GetItem is a function of (dict, key); what surrounds the "
                  "loop (own globals, the `found:` caching) is not verified here",
-                 "not under contract: ffi_fetch_int_constant, the recompiler's emission of _CFFI_F_EXTERNAL",
+                 "Recompiler._struct_ctx's flag word (contracts/py/structflags.py: a segment contract run on every "
+                 "combination of outcomes of the seven tests the segment makes): _CFFI_F_EXTERNAL is emitted exactly for a "
+                 "type, or a typedef'd pointer to it, that comes from an included FFI",
+                 "not under contract: ffi_fetch_int_constant",
                  "layout of LibObject / FFIObject is cross-checked with gcc"],
         technique="contract-based deductive verification: Python functions by exhaustive case contracts (pyvc), the C "
                   "lookup through include chains over a trace of recorded realizations (cvc)")
